@@ -148,6 +148,18 @@ def compare(case, got):
         plans = ms[1]["plans"]
         if any(p[0] == "err" for p in plans):
             return ("err", [p[1] for p in plans if p[0] == "err"][0]), impl
+        # a training set without decoys (or without targets) is rejected by LinearPsmDataset: legitimate when the random
+        # sub-sample of a capped training set happens to be one-class (the drawn sub-sample — an RNG oracle — was never
+        # observed, so the model cannot predict it), or when the complement of a fold is one-class itself
+        msg = obs.get("message", "")
+        if obs["error"] == "ValueError" and ("No decoy PSMs were detected" in msg or "No target PSMs were detected" in msg):
+            capped = any(pl is not None for p in plans if p[0] == "ok" for pl in p[1])
+            oneclass = False
+            for f in range(case["folds"]):
+                tg = [case["files"][j]["targets"][r] for j in range(len(case["files"])) for r in ms[1]["complements_per_file"][f][j]]
+                oneclass = oneclass or not any(tg) or all(tg)
+            if capped or oneclass:
+                return ("err", "OneClassTrainingSet"), ("err", "OneClassTrainingSet")
         # cannot compute scores without the estimator columns; predict the error kind only for calibration
         return ("err", "RuntimeError"), impl
     if ms[0] == "err":
@@ -220,8 +232,8 @@ def oracle(c, i):
     if "degenerate-few-spectra" in c.get("tags", []):
         return None
     if i[0] != "ok":
-        if i[1] in ("RuntimeError",):     # calibration: no accepted target in a fold (C11's explicit error)
-            return None
+        if i[1] in ("RuntimeError", "OneClassTrainingSet"):     # calibration: no accepted target in a fold (C11's explicit error);
+            return None                                           # a one-class training sub-sample (see compare)
         return f"brew failed on a valid dataset: {i[1]}"
     o = i[1]
     if "scored" not in o:
